@@ -4,7 +4,10 @@
 # demo test (existing tests pass, demo fails with / passes without the change)
 # and runs the property's check against it. The fresh worktree is removed again.
 d=$1; prop=$2; budget=${3:-30}
-. /verif/env.sh
+here=$(cd "$(dirname "$0")/.." && pwd)   # /verif, or a snapshot of it (vp run)
+. "$here/env.sh"
+export VERIF_ROOT="$here"
+(cd "$here" && go build -o bin/verif ./cmd/verif) || exit 2
 [ -f "$d/SEED_PATCH.diff" ] || { echo "no SEED_PATCH.diff in $d"; exit 2; }
 ev=/tmp/eval-$(basename "$d")
 git -C /repo worktree remove --force "$ev" 2>/dev/null
@@ -26,11 +29,11 @@ if [ -n "$demo" ]; then
   timeout 300 go test -count=1 -vet=off -run 'Seed|seed|Demo' $demopkg 2>&1 | tail -3
   echo "== demo without the change (expect ok)"
   changed=$(git diff --name-only)
-  git diff > /tmp/.seedcur.diff
+  git diff > /tmp/.seedcur-$(basename "$d").diff
   git checkout -- $changed && timeout 300 go test -count=1 -vet=off -run 'Seed|seed|Demo' $demopkg 2>&1 | tail -2
-  git apply /tmp/.seedcur.diff
+  git apply /tmp/.seedcur-$(basename "$d").diff
   rm -f "$ev/$demo"
 fi
 echo "== verif check $prop against the changed tree"
-cd /verif && VERIF_REPO="$ev" VERIF_BUDGET_S=$budget ./bin/verif check $prop 2>&1 | cut -c1-260 | grep -v "^      /" | head -80
+cd "$here" && VERIF_REPO="$ev" VERIF_BUDGET_S=$budget ./bin/verif check $prop 2>&1 | cut -c1-260 | grep -v "^      /" | head -80
 cd /; git -C /repo worktree remove --force "$ev"; rm -rf "/dev/shm/verif-bin-$(python3 -c "import hashlib,sys;print(hashlib.sha256(sys.argv[1].encode()).hexdigest()[:12])" "$ev")" "/dev/shm/verif-instr-$(python3 -c "import hashlib,sys;print(hashlib.sha256(sys.argv[1].encode()).hexdigest()[:12])" "$ev")" "/dev/shm/verif-instr-$(python3 -c "import hashlib,sys;print(hashlib.sha256(sys.argv[1].encode()).hexdigest()[:12])" "$ev").lock"
